@@ -947,6 +947,7 @@ func c16R10(p *core.Program, r *core.Report) {
 	type jf struct {
 		required bool
 		text     bool
+		enum     string // a validator that only admits an enumeration (http_method, oneof=...)
 	}
 	var jsonFields func(n types.Type, out map[string]jf)
 	jsonFields = func(t types.Type, out map[string]jf) {
@@ -968,10 +969,16 @@ func c16R10(p *core.Program, r *core.Report) {
 			if name == "" || name == "-" {
 				continue
 			}
-			out[name] = jf{required: strings.Contains(","+tag.Get("validate")+",", ",required,"), text: isStringType(f.Type())}
+			enum := ""
+			for _, part := range strings.Split(tag.Get("validate"), ",") {
+				if part == "http_method" || strings.HasPrefix(part, "oneof=") || strings.HasPrefix(part, "eq=") {
+					enum = part
+				}
+			}
+			out[name] = jf{required: strings.Contains(","+tag.Get("validate")+",", ",required,"), text: isStringType(f.Type()), enum: enum}
 		}
 	}
-	nCtor := 0
+	nCtor, nEnum := 0, 0
 	for _, m := range lp.Members {
 		fn, ok := m.(*ssa.Function)
 		if !ok || !strings.HasPrefix(fn.Name(), "new") || len(fn.Blocks) == 0 || p.IsTestFile(fn.Pos()) {
@@ -1032,8 +1039,83 @@ func c16R10(p *core.Program, r *core.Report) {
 			"writes "+strings.Join(unknown, ", ")+" which actions."+target.Obj().Name()+" has no json field for: the migrated value is dropped when the flow is read")
 		r.Check(len(missing) == 0, "R10", construct+"/required-fields-written", p.Pos(fn.Pos()), "every required field of actions."+target.Obj().Name()+" is written",
 			"never writes "+strings.Join(missing, ", ")+" which actions."+target.Obj().Name()+" requires: the migrated flow is rejected when it is read")
+		// required fields that only admit an enumeration: the legacy value is free text that may be empty, so what is
+		// written is a constant or falls back to a constant on the edge where the legacy value is empty
+		for k, f := range fields {
+			w, ok := writes[k]
+			if !ok || !f.required || !f.text || f.enum == "" {
+				continue
+			}
+			nEnum++
+			var bad []string
+			var judge func(v ssa.Value, at *ssa.BasicBlock, depth int)
+			judge = func(v ssa.Value, at *ssa.BasicBlock, depth int) {
+				v = stripIface(core.StripConv(v))
+				if depth > 4 {
+					bad = append(bad, "nesting")
+					return
+				}
+				if sc, ok := core.ConstString(v); ok {
+					if sc == "" {
+						bad = append(bad, "the empty constant")
+					}
+					return
+				}
+				switch x := v.(type) {
+				case *ssa.Parameter:
+					idx := -1
+					for i, fp := range x.Parent().Params {
+						if fp == x {
+							idx = i
+						}
+					}
+					sites := p.CallsTo(x.Parent())
+					if idx < 0 || len(sites) == 0 {
+						bad = append(bad, "a parameter without known callers")
+						return
+					}
+					for _, site := range sites {
+						if !p.IsTestFile(site.Pos()) && idx < len(site.Common().Args) {
+							judge(site.Common().Args[idx], site.Instr.Block(), depth+1)
+						}
+					}
+				case *ssa.Phi:
+					// defaulted: some edge carries a non-empty constant and comes from the `other == ""` branch
+					defaulted := false
+					for i, e := range x.Edges {
+						if sc, ok := core.ConstString(e); ok && sc != "" {
+							pr := x.Block().Preds[i]
+							conds := core.ControllingConds(pr)
+							if iff, ok := pr.Instrs[len(pr.Instrs)-1].(*ssa.If); ok && pr.Succs[0] != pr.Succs[1] {
+								conds = append(conds, core.CondEdge{Cond: iff.Cond, Taken: pr.Succs[0] == x.Block(), If: iff})
+							}
+							for _, ce := range conds {
+								if bo, ok := ce.Cond.(*ssa.BinOp); ok && ((bo.Op == token.EQL && ce.Taken) || (bo.Op == token.NEQ && !ce.Taken)) {
+									if s0, ok := core.ConstString(bo.Y); ok && s0 == "" {
+										for _, e2 := range x.Edges {
+											if e2 == bo.X {
+												defaulted = true
+											}
+										}
+									}
+								}
+							}
+						}
+					}
+					if !defaulted {
+						bad = append(bad, "a value that is not replaced by a constant when it is empty ("+p.Pos(x.Pos())+")")
+					}
+				default:
+					bad = append(bad, canonShort(v)+", which is empty when the legacy member is ("+p.Pos(at.Instrs[0].Pos())+")")
+				}
+			}
+			judge(w.val, w.block, 0)
+			r.Check(len(bad) == 0, "R10", construct+"/"+k+"-in-enumeration", p.Pos(fn.Pos()), "constant, or defaulted to a constant on the empty edge, at every call site",
+				fmt.Sprintf("%q of actions.%s must satisfy `%s` but is written from %s: a legacy flow without that member migrates to a definition that is rejected when read", k, target.Obj().Name(), f.enum, strings.Join(uniq(bad), "; ")))
+		}
 	}
 	r.Require("legacy_action_constructors", nCtor, 18)
+	r.Require("legacy_enumerated_required_fields", nEnum, 1)
 }
 
 // ---------------------------------------------------------------------------------------------- R12
